@@ -16,6 +16,12 @@
 //	seq t<ms> lsend c-|c<name>                     ListTools begins in a goroutine of its own; the RoundTripper holds the
 //	                                               server's (complete) answer back                -> sent | hit1 T{ … } c… (served from the cache) | ok (one is in flight already)
 //	seq t<ms> lrecv                                the answer held back is delivered, ListTools returns -> hit0 T{ … } c-|c<next>
+//	seq t<ms> setb t<name> p{ schema } | delb t<name>  AddTool / RemoveTools on a SECOND Server behind the same handler (getServer
+//	                                               returns it for the path /mcp/b)                 -> ok
+//	seq t<ms> callb t<name> P o{ … }               a second client connects to /mcp/b, lists all tools, CallTool, closes -> as `call`
+//	seq t<ms> bad t<name> | unbad t<name>          a FOREIGN server: from now on tools/list results carry the tool with INVALID
+//	                                               x-mcp-header annotations (written by the middleware; the SDK's AddTool would
+//	                                               refuse them) / as registered again             -> ok
 //	seq t<ms> look t<name>                         64 x ClientSession.lookupTool                 -> L{ the distinct answers }
 //	seq t<ms> call t<name> P o{ … }                ClientSession.CallTool                        -> H{ Mcp-Param-* sent } ok same | rej <code> handler=<n> | …
 //
@@ -217,6 +223,7 @@ func (rt *pfqRT) RoundTrip(req *http.Request) (*http.Response, error) {
 type pfqWorld struct {
 	start    time.Time
 	srv      *Server
+	srvB     *Server // a second server behind the same handler (path /mcp/b)
 	handler  *StreamableHTTPHandler
 	rt       *pfqRT
 	cs       *ClientSession
@@ -229,6 +236,8 @@ type pfqWorld struct {
 	pv       string
 	sub      bool
 	flight   *pfqFlight // the ListTools in flight (lsend … lrecv), if any
+	bad      map[string]int // tools listed with invalid annotations (value: which kind of invalid)
+	badN     int
 }
 
 type pfqFlight struct {
@@ -369,11 +378,28 @@ func (w *pfqWorld) open(kind, pv string, pageSize int, sub bool) {
 				if r, ok := res.(*ListToolsResult); ok && err == nil && ttl != 0 {
 					r.TTLMs = ttl
 				}
+				if r, ok := res.(*ListToolsResult); ok && err == nil {
+					w.mu.Lock()
+					for i, t := range r.Tools {
+						if k, isBad := w.bad[t.Name]; isBad {
+							cp := *t
+							cp.InputSchema = json.RawMessage(pfqInvalidSchema(k))
+							r.Tools[i] = &cp
+						}
+					}
+					w.mu.Unlock()
+				}
 			}
 			return res, err
 		}
 	})
-	w.handler = NewStreamableHTTPHandler(func(*http.Request) *Server { return w.srv }, &StreamableHTTPOptions{Stateless: kind == "Ksl"})
+	w.srvB = NewServer(&Implementation{Name: "verif-b", Version: "1"}, nil)
+	w.handler = NewStreamableHTTPHandler(func(r *http.Request) *Server {
+		if strings.HasSuffix(r.URL.Path, "/b") {
+			return w.srvB
+		}
+		return w.srv
+	}, &StreamableHTTPOptions{Stateless: kind == "Ksl"})
 	w.rt = &pfqRT{h: w.handler}
 }
 
@@ -547,6 +573,89 @@ func (w *pfqWorld) exec(f []string, lastNext *string) (op, obs string, tags []st
 			return op, "err:" + hxs(firstN(fl.err.Error(), 60)), []string{"seq-lrecv", "seq-list-err"}
 		}
 		return op, "hit0 " + pfqToolsTok(fl.res.Tools) + " " + pfqCursorTok(fl.res.NextCursor), []string{"seq-lrecv", fmt.Sprintf("seq-page%d", min(len(fl.res.Tools), 4))}
+	case "bad", "unbad":
+		w.mu.Lock()
+		if w.bad == nil {
+			w.bad = map[string]int{}
+		}
+		if f[0] == "bad" {
+			w.bad[unhex(f[1][1:])] = w.badN
+			w.badN++
+		} else {
+			delete(w.bad, unhex(f[1][1:]))
+		}
+		w.mu.Unlock()
+		return op, "ok", []string{"seq-" + f[0]}
+	case "setb":
+		ps, _ := pfqPropsFromTok(f[2:])
+		w.srvB.AddTool(&Tool{Name: unhex(f[1][1:]), InputSchema: json.RawMessage(pfSchemaJSON(ps))}, w.toolHandler)
+		synctest.Wait()
+		return op, "ok", []string{"seq-setb"}
+	case "delb":
+		w.srvB.RemoveTools(unhex(f[1][1:]))
+		synctest.Wait()
+		return op, "ok", []string{"seq-delb"}
+	case "callb":
+		name := unhex(f[1][1:])
+		var args *pfJ
+		if rest := f[2:]; len(rest) > 1 && rest[0] == "P" {
+			pj, _ := pfqJFromTok(rest[1:])
+			for _, fl := range pj.fields {
+				if fl.k == "arguments" {
+					args = fl.v
+				}
+			}
+		}
+		if args == nil {
+			args = &pfJ{kind: 'o'}
+		}
+		argsJSON := args.json()
+		version := protocolVersion20260728
+		if w.pv == "pvold" {
+			version = protocolVersion20251125
+		}
+		c2 := NewClient(&Implementation{Name: "c2", Version: "1"}, nil)
+		cs2, err := c2.Connect(ctx, &StreamableClientTransport{Endpoint: "http://127.0.0.1:8080/mcp/b", HTTPClient: &http.Client{Transport: w.rt}},
+			&ClientSessionOptions{ProtocolVersion: version})
+		if err != nil {
+			return op, "err:" + hxs(firstN(err.Error(), 60)) + " handler=0", []string{"seq-callb", "seq-callb-connect-err"}
+		}
+		defer func() { cs2.Close(); synctest.Wait() }()
+		cursor := ""
+		for i := 0; i < 64; i++ {
+			var lp *ListToolsParams
+			if cursor != "" {
+				lp = &ListToolsParams{Cursor: cursor}
+			}
+			res, err := cs2.ListTools(ctx, lp)
+			if err != nil || res.NextCursor == "" {
+				break
+			}
+			cursor = res.NextCursor
+		}
+		w.mu.Lock()
+		w.seen = nil
+		w.mu.Unlock()
+		w.rt.mu.Lock()
+		w.rt.callHdr = nil
+		w.rt.mu.Unlock()
+		_, err = cs2.CallTool(ctx, &CallToolParams{Name: name, Arguments: json.RawMessage(argsJSON)})
+		synctest.Wait()
+		w.mu.Lock()
+		seen := w.seen
+		w.mu.Unlock()
+		w.rt.mu.Lock()
+		hdr := w.rt.callHdr
+		w.rt.mu.Unlock()
+		if hdr == nil {
+			hdr = http.Header{}
+		}
+		out := pfqCallOut(err, seen, argsJSON)
+		tags = []string{"seq-callb", "seq-callb-" + strings.SplitN(strings.Fields(out)[0], ":", 2)[0]}
+		if pfParamHdrTok(hdr) != "H{ }" {
+			tags = append(tags, "seq-callb-mirrored")
+		}
+		return op, pfParamHdrTok(hdr) + " " + out, tags
 	case "look":
 		name := unhex(f[1][1:])
 		set := map[string]bool{}
@@ -601,26 +710,7 @@ func (w *pfqWorld) exec(f []string, lastNext *string) (op, obs string, tags []st
 		if hdr == nil {
 			hdr = http.Header{}
 		}
-		var out string
-		switch {
-		case err == nil && len(seen) == 1:
-			a, _ := pfParseJ([]byte(seen[0]))
-			b, _ := pfParseJ([]byte(argsJSON))
-			if a != nil && b != nil && pfCanon(a) == pfCanon(b) {
-				out = "ok same"
-			} else {
-				out = "ok differs"
-			}
-		case err == nil:
-			out = fmt.Sprintf("ok handler=%d", len(seen))
-		default:
-			var werr *jsonrpc.Error
-			if errors.As(err, &werr) {
-				out = fmt.Sprintf("rej %d handler=%d", werr.Code, len(seen))
-			} else {
-				out = fmt.Sprintf("err:%s handler=%d", hxs(firstN(err.Error(), 60)), len(seen))
-			}
-		}
+		out := pfqCallOut(err, seen, argsJSON)
 		tags = []string{"seq-call", "seq-call-" + strings.SplitN(strings.Fields(out)[0], ":", 2)[0]}
 		if len(hdr) > 0 && pfParamHdrTok(hdr) != "H{ }" {
 			tags = append(tags, "seq-call-mirrored")
@@ -628,6 +718,46 @@ func (w *pfqWorld) exec(f []string, lastNext *string) (op, obs string, tags []st
 		return op, pfParamHdrTok(hdr) + " " + out, tags
 	}
 	return op, "bad-op", nil
+}
+
+// pfqInvalidSchemas: input schemas whose x-mcp-header annotations validateParamHeaderAnnotations refuses.
+var pfqInvalidSchemas = []string{
+	`{"type":"object","properties":{"region":{"type":"string","x-mcp-header":"Bad Name"}}}`,
+	`{"type":"object","properties":{"region":{"type":"string","x-mcp-header":"Region"},"zone":{"type":"string","x-mcp-header":"region"}}}`,
+	`{"type":"object","properties":{"region":{"type":"object","x-mcp-header":"Region"}}}`,
+	`{"type":"object","properties":{"region":{"type":"string","x-mcp-header":5}}}`,
+	`{"type":"object","properties":{"region":{"type":"string","x-mcp-header":""}}}`,
+	`{"type":"object","properties":{"region":{"type":"array","x-mcp-header":"Region"}}}`,
+}
+
+func pfqInvalidSchema(k int) string {
+	for i := 0; i < len(pfqInvalidSchemas); i++ {
+		sc := pfqInvalidSchemas[(k+i)%len(pfqInvalidSchemas)]
+		if validateParamHeaderAnnotations(&Tool{Name: "t", InputSchema: json.RawMessage(sc)}) != nil {
+			return sc
+		}
+	}
+	return pfqInvalidSchemas[0]
+}
+
+// pfqCallOut: how a CallTool ended (the handler ran once with the arguments sent / otherwise / refused with a code).
+func pfqCallOut(err error, seen []string, argsJSON string) string {
+	switch {
+	case err == nil && len(seen) == 1:
+		a, _ := pfParseJ([]byte(seen[0]))
+		b, _ := pfParseJ([]byte(argsJSON))
+		if a != nil && b != nil && pfCanon(a) == pfCanon(b) {
+			return "ok same"
+		}
+		return "ok differs"
+	case err == nil:
+		return fmt.Sprintf("ok handler=%d", len(seen))
+	}
+	var werr *jsonrpc.Error
+	if errors.As(err, &werr) {
+		return fmt.Sprintf("rej %d handler=%d", werr.Code, len(seen))
+	}
+	return fmt.Sprintf("err:%s handler=%d", hxs(firstN(err.Error(), 60)), len(seen))
 }
 
 // pfqRun interprets the operation lines of one case (first line: `seq cfg …`; the others `seq [t<ms>] <op> …`) inside a
@@ -941,6 +1071,53 @@ func (g *pfGen) pfqGenerate() []string {
 	// arrives later (`lrecv`).  At most one listing is in flight.
 	conc := g.epoch >= 5
 	inflight := false
+	// two servers behind the handler (generator epoch 6): the second one registers tools under the SAME names with other
+	// annotations (none / other header names / moved / the same / a schema of its own); after a call of the first server's
+	// tool the same-named tool of the second is called through /mcp/b, and the other way round
+	toolsB := map[string][]*pfProp{}
+	two := g.epoch >= 6 && g.chance(30)
+	setB := func(name string, sc []*pfProp) {
+		toolsB[name] = sc
+		add("setb t" + hxs(name) + " " + pfqCanonProps(pfSchemaJSON(sc)))
+	}
+	callB := func(n string) {
+		sc := toolsB[n]
+		nm, _ := json.Marshal(n)
+		var a *pfJ
+		if g.chance(60) {
+			a = g.pfqArgsAll(sc)
+		} else {
+			a = g.args(sc, true)
+		}
+		params := json.RawMessage(`{"name":` + string(nm) + `,"arguments":` + a.json() + `}`)
+		if _, ok := extractName("tools/call", params); !ok {
+			return
+		}
+		add("callb t" + hxs(n) + " " + pfParamsTok(params))
+	}
+	if two {
+		for _, n := range names() {
+			if !g.chance(75) {
+				continue
+			}
+			var rev []*pfProp
+			switch how := g.pick([]string{"strip", "rename", "move", "same", "own"}); how {
+			case "same":
+				rev = tools[n].schema
+			case "own":
+				rev = schema()
+			default:
+				rev = g.pfqRevise(tools[n].schema, how)
+				if rev == nil {
+					rev = g.pfqMutate(tools[n].schema)
+				}
+			}
+			setB(n, rev)
+		}
+		if g.chance(30) {
+			setB(pfqNames[g.rng.Intn(len(pfqNames))], schema())
+		}
+	}
 	callAll := func(n string, sc []*pfProp) {
 		nm, _ := json.Marshal(n)
 		params := json.RawMessage(`{"name":` + string(nm) + `,"arguments":` + g.pfqArgsAll(sc).json() + `}`)
@@ -996,6 +1173,36 @@ func (g *pfGen) pfqGenerate() []string {
 			callAll(n, tools[n].schema)
 			continue
 		}
+		if g.epoch >= 6 && g.chance(7) {
+			// a foreign server: a registered tool is LISTED with invalid annotations from now on; the change is announced (the
+			// tool is re-registered as it is) or not; the client lists again and calls; sometimes the listing is repaired
+			if ns := names(); len(ns) > 0 {
+				n := ns[g.rng.Intn(len(ns))]
+				add("bad t" + hxs(n))
+				if g.chance(75) {
+					setTool(n, tools[n].schema)
+					add(fmt.Sprintf("adv %d", []int{5, 10, 11, 50}[g.rng.Intn(4)]))
+				}
+				listAll()
+				callAll(n, tools[n].schema)
+				if g.chance(50) {
+					nm, _ := json.Marshal(n)
+					params := json.RawMessage(`{"name":` + string(nm) + `,"arguments":{}}`)
+					add("look t" + hxs(n))
+					add("call t" + hxs(n) + " " + pfParamsTok(params))
+				}
+				if g.chance(50) {
+					add("unbad t" + hxs(n))
+					if g.chance(70) {
+						setTool(n, tools[n].schema)
+						add("adv 11")
+					}
+					listAll()
+					callAll(n, tools[n].schema)
+				}
+				continue
+			}
+		}
 		r := g.rng.Intn(100)
 		switch {
 		case r < 14:
@@ -1038,7 +1245,16 @@ func (g *pfGen) pfqGenerate() []string {
 				}
 			}
 			add("look t" + hxs(name))
+			if two && toolsB[name] != nil && g.chance(35) {
+				callB(name) // the second server's tool of that name first
+			}
 			add("call t" + hxs(name) + " " + pfParamsTok(params))
+			if two && toolsB[name] != nil && g.chance(70) {
+				callB(name)
+				if g.chance(30) {
+					add("call t" + hxs(name) + " " + pfParamsTok(params))
+				}
+			}
 			everListed = append(everListed, name)
 		case r < 74:
 			// a registered, annotated tool gets a new revision - no annotation at all / other header names / the annotation
